@@ -145,8 +145,11 @@ func validJSON(b []byte) bool { return json.Valid(b) }
 // Spec computes what is allowed. t0/t1 are unix seconds around the call (for relative expiries).
 func Spec(pre *Doc, o *Op, t0, t1 int64, maxDoc int) Expect {
 	ex := spec(pre, o, t0, t1, maxDoc)
-	if ex.Accept == 1 && macroMixed(o) {
-		ex.Accept, ex.Why = 0, "arg"
+	if macroMixed(o) || o.BadJSONX {
+		if ex.Accept == 1 {
+			ex.Accept, ex.Why = 0, "arg"
+		}
+		ex.FailClasses = nil // a second failure cause applies; which one is reported is not pinned
 	}
 	if maxDoc > 0 && ex.Accept == 1 && len(o.Macros) > 0 && sizeVerdict(len(ex.Post.Body)+48*len(o.Macros), ex.Post.X, maxDoc) != -1 {
 		ex.Accept, ex.Why = 0, "size"
@@ -395,9 +398,9 @@ func spec(pre *Doc, o *Op, t0, t1 int64, maxDoc int) Expect {
 		}
 		p := Doc{Present: true, Body: nil, Rev: pre.Rev + 1, X: mergeX(pre.X, nil, o.XDel), Exp: pre.Exp}
 		ex := Expect{Accept: 1, Post: p, NewCas: 1, Event: 1, ExpLo: pre.Exp, ExpHi: pre.Exp}
+		ex.DCExp = true // whether this delete keeps or clears the expiry is not pinned (§3.7)
 		if pre.Live() {
 			ex.DCUserX = true // §3.7
-			ex.DCExp = true
 		}
 		return ex
 
